@@ -75,6 +75,7 @@ var meshMenu = map[string]meshDef{
 	"O":  {id: "O", seed: 3, n: 5, idx: oddO, attrs: []string{modeling.PositionAttribute, modeling.JointAttribute, modeling.WeightAttribute}},
 	"P":  {id: "P", seed: 4, point: true, n: 4, idx: pntP, attrs: []string{modeling.PositionAttribute, modeling.ColorAttribute}},
 	"E":  {id: "E", seed: 5, n: 0},
+	"Qn": {id: "Qn", seed: nanSeed, n: 4, idx: quadQ, attrs: []string{modeling.PositionAttribute, modeling.NormalAttribute, modeling.ColorAttribute}},
 	// index-width threshold: the last vertex is referenced, so a 16-bit index of a 65 536/65 537-vertex
 	// mesh would be the restart value / wrap around
 	"B65535": {id: "B65535", seed: 6, n: 65535, idx: bigIdx(65535), attrs: []string{modeling.PositionAttribute, modeling.TexCoordAttribute}},
@@ -104,6 +105,9 @@ func meshDefOf(id string) (meshDef, bool) {
 }
 
 const ladderSeed = 1 << 20
+
+// nanSeed: mesh "Qn", the quad Q whose last vertex carries a normal with NaN components
+const nanSeed = 77
 
 var f32Ladder = core.Float32Ladder()
 
@@ -149,6 +153,9 @@ func attrVal(seed int, attr string, i, c int) float64 {
 	}
 	if attr == modeling.JointAttribute {
 		return float64((i*4 + c*7 + seed + h) % 200)
+	}
+	if seed == nanSeed && attr == modeling.NormalAttribute && i == 3 {
+		return math.NaN() // the normal of a degenerate triangle: Normalized() of the zero vector
 	}
 	if seed >= ladderSeed {
 		return float64(math.Float32frombits(f32Ladder[(seed-ladderSeed+4*i+c+h)%len(f32Ladder)]))
